@@ -105,6 +105,55 @@ MATRICES = ['varCovar', 'correlation', 'robust_varCovar', 'robust_correlation', 
             'bootstrap_correlation']
 
 
+def apply_raw(raw, c):
+    """replace, IN PLACE, the raw inputs of an already existing (possibly already processed) RawResults object
+    by those of case c (same parameters, same names)"""
+    import datetime
+
+    vals = [fx(b) for b in c['betas']]
+    raw.betaValues = list(vals)
+    for b, v, (lb, ub) in zip(raw.betas, vals, c['bounds']):
+        b.value, b.lb, b.ub = v, fx(lb), fx(ub)
+    raw.logLike, raw.initLogLike, raw.nullLogLike = fx(c['L']), fx(c['L0']), fx(c['Lnull'])
+    raw.sampleSize, raw.numberOfObservations = c['N'], c['nobs']
+    raw.excludedData = c.get('excluded', 0)
+    raw.H = None if c['H'] is None else np.array([[fx(v) for v in r] for r in c['H']], dtype=float)
+    raw.bhhh = None if c['B'] is None else np.array([[fx(v) for v in r] for r in c['B']], dtype=float)
+    raw.bootstrap = None if c.get('boot') is None else np.array([[fx(v) for v in r] for r in c['boot']], dtype=float)
+    if raw.bootstrap is not None and not hasattr(raw, 'bootstrap_time'):
+        raw.bootstrap_time = datetime.timedelta(seconds=2)
+
+
+def next_results(prev, c, mode):
+    """one step of a history: a new bioResults for the raw outcome c, obtained from the already processed
+    results `prev` through one of the entry points of results.py"""
+    import copy
+    import pickle
+    from biogeme.results import bioResults
+
+    if mode == 'same_object':                     # the processed RawResults is updated and reported again
+        apply_raw(prev.data, c)
+        return bioResults(the_raw_results=prev.data, identification_threshold=1.0e-5)
+    if mode == 'deepcopy':
+        raw = copy.deepcopy(prev.data)
+        apply_raw(raw, c)
+        return bioResults(the_raw_results=raw, identification_threshold=1.0e-5)
+    if mode == 'pickle_then_modify':              # written by write_pickle, read back, updated, reported again
+        fn = prev.write_pickle()
+        r = bioResults(pickle_file=fn, identification_threshold=1.0e-5)
+        apply_raw(r.data, c)
+        return bioResults(the_raw_results=r.data, identification_threshold=1.0e-5)
+    if mode == 'modify_then_pickle':              # updated, written by write_pickle, read by the pickle entry point
+        apply_raw(prev.data, c)
+        fn = prev.write_pickle()
+        return bioResults(pickle_file=fn, identification_threshold=1.0e-5)
+    if mode == 'raw_pickle':                      # the raw object itself pickled by the user, as the docs suggest
+        apply_raw(prev.data, c)
+        raw = pickle.loads(pickle.dumps(prev.data))
+        return bioResults(the_raw_results=raw, identification_threshold=1.0e-5)
+    raise ValueError(f'unknown history mode {mode}')
+
+
 def run_case(c, want):
     from biogeme.results import bioResults
 
@@ -116,7 +165,26 @@ def run_case(c, want):
         res = bioResults(raw, identification_threshold=1.0e-5)
     except Exception as e:  # noqa
         return {'construct': exc(e)}
-    return report(res, c, want)
+    if not c.get('history'):
+        return report(res, c, want)
+    # a history: the same raw outcome object processed again after each update
+    c0 = {k: v for k, v in c.items() if k not in ('history', 'modes', 'lr_with')}
+    outs = [_try_report(res, c0, want)]
+    for step, mode in zip(c['history'], c['modes']):
+        try:
+            res = next_results(res, step, mode)
+        except Exception as e:  # noqa
+            outs.append({'construct': exc(e)})
+            break
+        outs.append(_try_report(res, step, want))
+    return {'history_outs': outs}
+
+
+def _try_report(res, c, want):
+    try:
+        return report(res, c, want)
+    except Exception as e:  # noqa
+        return {'runner': exc(e)}
 
 
 def report(res, c, want):
